@@ -710,7 +710,8 @@ def reaching_def(fn: ast.AST, name: str, at: ast.AST, unpack_calls: bool = False
         if isinstance(blk, list) and any(last_for_block is x for x in blk):
             return last
     # a name with ONE binding in the whole function: wherever it is read without raising, it has that value
-    if len(binds) == 1 and not any(isinstance(a, (ast.For, ast.AsyncFor, ast.While)) for a in ancestors(last_for_block)
+    is_param = isinstance(fn, (ast.FunctionDef, ast.AsyncFunctionDef, ast.Lambda)) and name in {a.arg for a in ast.walk(fn.args) if isinstance(a, ast.arg)}
+    if len(binds) == 1 and not is_param and not any(isinstance(a, (ast.For, ast.AsyncFor, ast.While)) for a in ancestors(last_for_block)
                                    if not isinstance(a, (ast.FunctionDef, ast.AsyncFunctionDef)) and not any(a is l for l in loops)):
         return last
     return None
@@ -849,12 +850,47 @@ def iteration_of(node: ast.AST, var: str) -> Optional[ast.AST]:
 
 
 # ------------------------------------------------------------------ data-driven code: unroll loops over literals
-def _literal_items(fn: ast.AST, it: ast.AST) -> Optional[List[List[ast.AST]]]:
+def module_consts(tree: ast.AST) -> Dict[str, ast.AST]:
+    """Module-level names bound exactly once, at top level, to a literal tuple / list / dict (and never mutated by a
+    statement of the module's top level): NAME -> literal."""
+    out: Dict[str, ast.AST] = {}
+    count: Dict[str, int] = {}
+    for st in getattr(tree, "body", []):
+        for t in (st.targets if isinstance(st, ast.Assign) else [getattr(st, "target", None)] if isinstance(st, (ast.AnnAssign, ast.AugAssign)) else []):
+            for nm in target_names(t) if t is not None else []:
+                count[nm] = count.get(nm, 0) + 1
+        if isinstance(st, ast.Assign) and len(st.targets) == 1 and isinstance(st.targets[0], ast.Name) and isinstance(st.value, (ast.Tuple, ast.List, ast.Dict)):
+            out[st.targets[0].id] = st.value
+        elif isinstance(st, ast.AnnAssign) and isinstance(st.target, ast.Name) and isinstance(st.value, (ast.Tuple, ast.List, ast.Dict)):
+            out[st.target.id] = st.value
+    return {k: v for k, v in out.items() if count.get(k) == 1}
+
+
+class _FoldFStrings(ast.NodeTransformer):
+    """f"{'contrast'}_p" -> 'contrast_p' (what substitution of a constant for a loop variable leaves behind)."""
+
+    def visit_JoinedStr(self, node: ast.JoinedStr):
+        self.generic_visit(node)
+        parts = []
+        for v in node.values:
+            if isinstance(v, ast.Constant) and isinstance(v.value, str):
+                parts.append(v.value)
+            elif isinstance(v, ast.FormattedValue) and v.conversion == -1 and v.format_spec is None and isinstance(v.value, ast.Constant) and isinstance(v.value.value, str):
+                parts.append(v.value.value)
+            else:
+                return node
+        return ast.copy_location(ast.Constant(value="".join(parts)), node)
+
+
+def _literal_items(fn: ast.AST, it: ast.AST, consts: Optional[Dict[str, ast.AST]] = None) -> Optional[List[List[ast.AST]]]:
     """Elements of a loop iterable that is a literal (or a name bound once to one): a list of per-iteration value
     tuples ([k, v] for dict .items(), [e] or the components of a tuple element otherwise)."""
     def lit(e):
         if isinstance(e, ast.Name):
             d = _single_defs(fn).get(e.id)
+            if d is None and consts and e.id in consts and not assignments_to(fn, e.id) \
+                    and e.id not in {a.arg for a in ast.walk(fn.args) if isinstance(a, ast.arg)}:
+                d = consts[e.id]   # a module-level constant the function does not shadow
             return d if isinstance(d, (ast.Dict, ast.Tuple, ast.List)) else None
         return e if isinstance(e, (ast.Dict, ast.Tuple, ast.List)) else None
 
@@ -883,7 +919,65 @@ def _literal_items(fn: ast.AST, it: ast.AST) -> Optional[List[List[ast.AST]]]:
     return None
 
 
-def unroll_literal_loops(fn: ast.AST) -> ast.AST:
+def _split_list_tuples(fn: ast.AST) -> None:
+    """In place:  N = ([], [], [])  (one binding, N never mutated as a container)  becomes  N_0 = []; N_1 = []; N_2 = []
+    and every read of N the tuple (N_0, N_1, N_2), N[k] the name N_k: the accumulators get names of their own."""
+    def empty(e):
+        return (isinstance(e, ast.List) and not e.elts) or (isinstance(e, ast.Call) and norm(e.func) == "list" and not e.args and not e.keywords)
+
+    for st in list(walk_function(fn)):
+        if not (isinstance(st, ast.Assign) and len(st.targets) == 1 and isinstance(st.targets[0], ast.Name) and isinstance(st.value, (ast.Tuple, ast.List))
+                and len(st.value.elts) >= 2 and all(empty(e) for e in st.value.elts)):
+            continue
+        name = st.targets[0].id
+        par = getattr(st, "_parent", None)
+        if par is not fn or enclosing_loops(st) or len(assignments_to(fn, name)) != 1:
+            continue
+        uses = [n for n in walk_function(fn) if isinstance(n, ast.Name) and n.id == name and n is not st.targets[0]]
+        bad = False
+        for u in uses:
+            up = getattr(u, "_parent", None)
+            if not isinstance(u.ctx, ast.Load) or (isinstance(up, ast.Attribute) and up.value is u) \
+                    or (isinstance(up, ast.Subscript) and up.value is u and not isinstance(up.ctx, ast.Load)) or isinstance(up, ast.AugAssign):
+                bad = True
+        if bad or any(name in target_names(t) for n in walk_function(fn) if isinstance(n, (ast.For, ast.AsyncFor, ast.comprehension)) for t in [n.target]):
+            continue
+        taken = {n.id for n in ast.walk(fn) if isinstance(n, ast.Name)} | {a.arg for a in ast.walk(fn) if isinstance(a, ast.arg)}
+        parts = []
+        for k in range(len(st.value.elts)):
+            nm = f"{name}_{k}"
+            while nm in taken:
+                nm += "_"
+            taken.add(nm)
+            parts.append(nm)
+
+        class Sub(ast.NodeTransformer):
+            def visit_Subscript(self, node):
+                self.generic_visit(node)
+                if isinstance(node.value, ast.Tuple) and getattr(node.value, "_split_of", None) == name and isinstance(const_value(node.slice), int) \
+                        and -len(parts) <= const_value(node.slice) < len(parts):
+                    return ast.copy_location(ast.Name(id=parts[const_value(node.slice)], ctx=ast.Load()), node)
+                return node
+
+            def visit_Name(self, node):
+                if node.id == name and isinstance(node.ctx, ast.Load):
+                    t = ast.Tuple(elts=[ast.Name(id=p, ctx=ast.Load()) for p in parts], ctx=ast.Load())
+                    t._split_of = name  # type: ignore[attr-defined]
+                    return ast.copy_location(t, node)
+                return node
+
+        idx = fn.body.index(st)
+        news = [ast.copy_location(ast.Assign(targets=[ast.Name(id=p, ctx=ast.Store())], value=e), st) for p, e in zip(parts, st.value.elts)]
+        fn.body[idx:idx + 1] = news
+        for i_, b_ in enumerate(fn.body):
+            if b_ not in news:
+                fn.body[i_] = Sub().visit(b_)
+        ast.fix_missing_locations(fn)
+        from .program import set_parents
+        set_parents(fn)
+
+
+def unroll_literal_loops(fn: ast.AST, consts: Optional[Dict[str, ast.AST]] = None) -> ast.AST:
     """A copy of the function in which every top-level `for` over a literal container is replaced by its unrolled
     iterations (loop variables substituted), `if c: ...; break` bodies becoming an if/elif chain, and
     setattr(obj, "name", v) written as obj.name = v.  Loops that cannot be unrolled faithfully are left alone."""
@@ -892,9 +986,10 @@ def unroll_literal_loops(fn: ast.AST) -> ast.AST:
 
     new = clone(fn)
     set_parents(new)
+    _split_list_tuples(new)
 
     def subst(stmts, mapping):
-        return [_Subst(mapping).visit(clone(s)) for s in stmts]
+        return [_FoldFStrings().visit(_Subst(mapping).visit(clone(s))) for s in stmts]
 
     def bind(target, vals):
         if isinstance(target, ast.Name) and len(vals) == 1:
@@ -914,7 +1009,7 @@ def unroll_literal_loops(fn: ast.AST) -> ast.AST:
             if isinstance(st, (ast.For, ast.While)):
                 keep_loop = True
             if isinstance(st, ast.For):
-                items = _literal_items(new, st.iter)
+                items = _literal_items(new, st.iter, consts)
                 maps = [bind(st.target, v) for v in items] if items is not None else None
                 if maps and all(m is not None for m in maps):
                     jumps = [n for s_ in st.body for n in ast.walk(s_) if isinstance(n, (ast.Break, ast.Continue))]
@@ -932,7 +1027,7 @@ def unroll_literal_loops(fn: ast.AST) -> ast.AST:
                         chain = None
                         tail = unroll_block(st.orelse)   # for/else: runs when no iteration broke out
                         for m in reversed(maps):
-                            test = _Subst(m).visit(clone(single.test))
+                            test = _FoldFStrings().visit(_Subst(m).visit(clone(single.test)))
                             body = unroll_block(subst(single.body[:-1], m)) or [ast.Pass()]
                             chain = ast.If(test=test, body=body, orelse=[chain] if chain is not None else tail)
                             ast.copy_location(chain, single)
@@ -968,6 +1063,12 @@ def self_alias(fn: ast.AST, e: Optional[ast.AST]) -> str:
                   and len(s.targets) == 1 and isinstance(s.targets[0], ast.Attribute) and norm(s.targets[0].value) == "self"]
         if len(binds) == 1 and len(stores) == 1:
             return norm(stores[0].targets[0])
+        # cand = self.candidate  (one binding, self.candidate not re-assigned in the function): reads of cand are reads of self.candidate
+        if len(binds) == 1 and isinstance(binds[0], ast.Assign) and len(binds[0].targets) == 1 and isinstance(binds[0].targets[0], ast.Name) \
+                and isinstance(binds[0].value, ast.Attribute) and norm(binds[0].value).startswith("self.") and not enclosing_loops(binds[0]):
+            tgt = norm(binds[0].value)
+            if not any(norm(t) == tgt for st in walk_function(fn) if isinstance(st, (ast.Assign, ast.AugAssign, ast.AnnAssign)) for t in stmt_targets(st)):
+                return tgt
     return norm(e) if e is not None else ""
 
 
@@ -996,3 +1097,161 @@ def dict_builds(fn: ast.AST, e: Optional[ast.AST]) -> List[DictBuild]:
     if isinstance(e, ast.DictComp) and len(e.generators) == 1:
         return [DictBuild(e.key, e.value, e.generators[0], e)]
     return []
+
+
+def linear(e: ast.AST) -> Optional[Dict[str, float]]:
+    """e as a linear combination {term text: coefficient, "": constant}; None if a product of two non-constants occurs."""
+    if isinstance(e, ast.Constant) and isinstance(e.value, (int, float)) and not isinstance(e.value, bool):
+        return {"": float(e.value)}
+    if isinstance(e, ast.UnaryOp) and isinstance(e.op, (ast.USub, ast.UAdd)):
+        v = linear(e.operand)
+        return None if v is None else ({k: -c for k, c in v.items()} if isinstance(e.op, ast.USub) else v)
+    if isinstance(e, ast.BinOp) and isinstance(e.op, (ast.Add, ast.Sub)):
+        a, b = linear(e.left), linear(e.right)
+        if a is None or b is None:
+            return None
+        out = dict(a)
+        for k, c in b.items():
+            out[k] = out.get(k, 0.0) + (c if isinstance(e.op, ast.Add) else -c)
+        return {k: c for k, c in out.items() if c != 0 or k == ""}
+    if isinstance(e, ast.BinOp) and isinstance(e.op, ast.Mult):
+        a, b = linear(e.left), linear(e.right)
+        for x, y in ((a, b), (b, a)):
+            if x is not None and y is not None and set(x) <= {""}:
+                return {k: c * x.get("", 0.0) for k, c in y.items()}
+        return {norm(e): 1.0}
+    return {norm(e): 1.0}
+
+
+def compare_form(t: ast.AST) -> Optional[Tuple[Dict[str, float], str]]:
+    """`a OP b` (OP in < <= > >=) as (linear form of a - b with the constant moved in, one of '>', '>='): a < b is b - a > 0."""
+    if not (isinstance(t, ast.Compare) and len(t.ops) == 1):
+        return None
+    a, b = linear(t.left), linear(t.comparators[0])
+    if a is None or b is None:
+        return None
+    op = t.ops[0]
+    if isinstance(op, (ast.Lt, ast.LtE)):
+        a, b = b, a
+    elif not isinstance(op, (ast.Gt, ast.GtE)):
+        return None
+    d = dict(a)
+    for k, c in b.items():
+        d[k] = d.get(k, 0.0) - c
+    d = {k: c for k, c in d.items() if c != 0}
+    return d, (">" if isinstance(op, (ast.Gt, ast.Lt)) else ">=")
+
+
+def call_keywords(fn: ast.AST, call: ast.Call) -> List[ast.keyword]:
+    """The keyword arguments of `call`, with `**d` written out when d is a local dict built in `fn` from one literal
+    ({"k": v, ...} / dict(k=v)) plus constant-key item assignments d["k"] = v."""
+    out: List[ast.keyword] = []
+    for k in call.keywords:
+        if k.arg is None and isinstance(k.value, ast.Name):
+            lits = [st for st in assignments_to(fn, k.value.id) if isinstance(st, ast.Assign)]
+            items = [st for st in walk_function(fn) if isinstance(st, ast.Assign) and len(st.targets) == 1 and isinstance(st.targets[0], ast.Subscript)
+                     and isinstance(st.targets[0].value, ast.Name) and st.targets[0].value.id == k.value.id]
+            if len(lits) == 1 and all(isinstance(st.targets[0].slice, ast.Constant) and isinstance(st.targets[0].slice.value, str) for st in items):
+                v = lits[0].value
+                if isinstance(v, ast.Dict) and all(isinstance(x, ast.Constant) and isinstance(x.value, str) for x in v.keys):
+                    out += [ast.keyword(arg=kk.value, value=vv) for kk, vv in zip(v.keys, v.values)]
+                    out += [ast.keyword(arg=st.targets[0].slice.value, value=st.value) for st in items]
+                    continue
+                if isinstance(v, ast.Call) and norm(v.func) == "dict" and not v.args and all(kk.arg for kk in v.keywords):
+                    out += list(v.keywords)
+                    out += [ast.keyword(arg=st.targets[0].slice.value, value=st.value) for st in items]
+                    continue
+        out.append(k)
+    return out
+
+
+def path_returns(fn: ast.AST, limit: int = 32) -> Optional[List[Tuple[List[Tuple[ast.AST, bool]], Optional[ast.AST]]]]:
+    """The paths through a loop-free function body: [(branch decisions [(test, taken)], returned expression)], both written
+    over the PARAMETERS (local names substituted by the expressions bound to them along the path).  None when the body has
+    statements this walker does not model (loops, try, with binding a name, ...) - the caller then falls back / reports
+    the function as not in the expected shape."""
+    from .inline import clone, _Subst
+
+    body = [st for st in fn.body if not (isinstance(st, ast.Expr) and isinstance(st.value, ast.Constant) and isinstance(st.value.value, str))]
+    out: List[Tuple[List[Tuple[ast.AST, bool]], Optional[ast.AST]]] = []
+
+    class _GiveUp(Exception):
+        pass
+
+    def sub(e, env):
+        return _Subst(env).visit(clone(e)) if e is not None else None
+
+    def run(stmts, env, conds):
+        for i, st in enumerate(stmts):
+            if isinstance(st, ast.Return):
+                out.append((conds, sub(st.value, env)))
+                if len(out) > limit:
+                    raise _GiveUp()
+                return True
+            if isinstance(st, (ast.Pass, ast.Expr, ast.Assert, ast.Import, ast.ImportFrom)):
+                continue
+            if isinstance(st, ast.Raise):
+                return True
+            if isinstance(st, ast.AnnAssign) and st.value is not None and isinstance(st.target, ast.Name):
+                env = dict(env); env[st.target.id] = sub(st.value, env)
+                continue
+            if isinstance(st, ast.AugAssign) and isinstance(st.target, ast.Name):
+                cur = env.get(st.target.id, ast.Name(id=st.target.id, ctx=ast.Load()))
+                env = dict(env); env[st.target.id] = ast.BinOp(left=clone(cur), op=st.op, right=sub(st.value, env))
+                continue
+            if isinstance(st, ast.Assign) and len(st.targets) == 1:
+                t, v = st.targets[0], sub(st.value, env)
+                env = dict(env)
+                if isinstance(t, ast.Name):
+                    env[t.id] = v
+                    continue
+                if isinstance(t, (ast.Tuple, ast.List)) and all(isinstance(e, ast.Name) for e in t.elts):
+                    if isinstance(v, (ast.Tuple, ast.List)) and len(v.elts) == len(t.elts):
+                        for e, x in zip(t.elts, v.elts):
+                            env[e.id] = x
+                    else:
+                        for k, e in enumerate(t.elts):
+                            env[e.id] = ast.Subscript(value=clone(v), slice=ast.Constant(value=k), ctx=ast.Load())
+                    continue
+                if isinstance(t, (ast.Subscript, ast.Attribute)):
+                    continue   # a store into an object: the names keep their bindings
+                raise _GiveUp()
+            if isinstance(st, ast.If):
+                t = sub(st.test, env)
+                done_a = run(st.body + stmts[i + 1:], env, conds + [(t, True)])
+                done_b = run(st.orelse + stmts[i + 1:], env, conds + [(t, False)])
+                return done_a and done_b
+            raise _GiveUp()
+        out.append((conds, None))
+        return True
+
+    try:
+        run(body, {}, [])
+    except _GiveUp:
+        return None
+    return out
+
+
+def record_fields(fn: ast.AST, e: Optional[ast.AST]) -> Optional[Dict[str, ast.AST]]:
+    """Constant-key fields of the dict denoted by `e`: a dict literal / dict(k=v), or a name bound once to one and
+    completed by `name["k"] = v` statements.  None when `e` is not such a record."""
+    def lit(v):
+        if isinstance(v, ast.Dict) and all(isinstance(k, ast.Constant) and isinstance(k.value, str) for k in v.keys):
+            return {k.value: x for k, x in zip(v.keys, v.values)}
+        if isinstance(v, ast.Call) and norm(v.func) == "dict" and not v.args and all(k.arg for k in v.keywords):
+            return {k.arg: k.value for k in v.keywords}
+        return None
+
+    if isinstance(e, ast.Name):
+        binds = [st for st in assignments_to(fn, e.id)]
+        if len(binds) != 1 or not isinstance(binds[0], ast.Assign):
+            return None
+        out = lit(binds[0].value)
+        if out is None:
+            return None
+        for st in walk_function(fn):
+            if isinstance(st, ast.Assign) and len(st.targets) == 1 and isinstance(st.targets[0], ast.Subscript) and isinstance(st.targets[0].value, ast.Name) \
+                    and st.targets[0].value.id == e.id and isinstance(const_value(st.targets[0].slice), str):
+                out[const_value(st.targets[0].slice)] = st.value
+        return out
+    return lit(e) if e is not None else None
